@@ -204,6 +204,8 @@ func propC11(p *Prog, r *Report) {
 	c11ClientFlows(p, r)
 	c11Handlers(p, r)
 	c11Framing(p, r)
+	r.Rule("C11.g", "chunk discipline: the GetFile handler sends buf[:n] of the Read that filled the buffer; the stream writer sends a non-empty remainder before CloseAndRecv and returns every Send / CloseAndRecv error")
+	c11Chunks(p, r, "C11.g")
 }
 
 func c11Tables(p *Prog, r *Report) {
